@@ -202,6 +202,10 @@ func (ch *channel) SendAndClose(ctx async.Context, data []byte) status.Status {
 // Receive receives and returns a message, or an end status.
 func (ch *channel) Receive(ctx async.Context) ([]byte, status.Status) {
 	for {
+		// Get the wait channel before polling. The wait channel of the queue can miss
+		// a message which was written between the poll and the wait.
+		wait := ch.ReceiveWait()
+
 		// Poll channel
 		data, ok, st := ch.ReceiveAsync(ctx)
 		switch {
@@ -215,7 +219,7 @@ func (ch *channel) Receive(ctx async.Context) ([]byte, status.Status) {
 		select {
 		case <-ctx.Wait():
 			return nil, ctx.Status()
-		case <-ch.ReceiveWait():
+		case <-wait:
 		}
 	}
 }
